@@ -4,3 +4,4 @@ import PG.Props.C04
 #print axioms PG.C04_method_frames
 #print axioms PG.C04_cache_class
 #print axioms PG.C04_cache_method
+#print axioms PG.C04_file
